@@ -115,7 +115,19 @@ func (vc *VC) get(s *State, comp string) string {
 	if !ok {
 		panic("unregistered component " + comp)
 	}
-	n := fmt.Sprintf("%s__e%d", comp, s.epoch)
+	ep := s.epoch
+	if isActivationLocal(comp) {
+		ep = 0 // activation-local ghosts are never touched by a havoc of "everything": untouched means entry value
+	}
+	n := fmt.Sprintf("%s__e%d", comp, ep)
+	if !vc.declared[n] && ep == 0 && strings.HasPrefix(comp, "Held_") && !vc.locksAtEntry {
+		// entry assumption: no lock is held when the function is entered (locks the function takes on its parameters
+		// are checked at every call site; a contract that is entered with a lock held says so with requires held(..))
+		vc.declare(n, ci.sort)
+		vc.axiom(fmt.Sprintf("(forall ((r Int)) (! (= (select %s r) 0) :pattern ((select %s r))))", n, n))
+		vc.trust("locks on objects other than the function's parameters are assumed free at function entry")
+		return n
+	}
 	vc.declare(n, ci.sort)
 	vc.typedVersion(comp, n)
 	return n
